@@ -1,5 +1,5 @@
 """The per-property registry: which correspondence suites (generators) and which flavours serve a property."""
-from . import gen
+from . import gen, steps
 
 TRUSTED_BASE = [
     "coqc 8.16.1 kernel (vm_compute used in Examples only; no native_compute)",
@@ -121,7 +121,18 @@ def suite_mixed(rng, tier, flavour):          # C12: one directory handed betwee
 Q2 = {"quick": ["sync", "astd"], "thorough": ["sync", "astd", "tok"]}
 Q3 = {"quick": ["sync", "astd", "tok"], "thorough": ["sync", "astd", "tok"]}
 
+def step_c03(fl, tier, rng): return steps.suite_kill(fl, tier, rng, "C03")
+def step_c04(fl, tier, rng): return steps.suite_kill(fl, tier, rng, "C04")
+
 REGISTRY = {
+    "C03": {"flavours": Q3, "suites": [], "step_suites": [("kill", step_c03)],
+            "rule": "strace kill sweep: for every write variant (one-shot keyed / by address, streamed with declared size (mapped) and plain, more data than declared, overwrite, address already present, tombstone; thorough: sizes 1 MiB-1/0/+1) the process is SIGKILLed on entry to every mutating system call of every operation, and every data write into the cache is additionally torn at every byte length; on each surviving directory: every regular file under content-v2 hashes (hashlib/libxxhash) to its path, and the normalised tree is one of the model's crash states (Crash.v) for that operation."},
+    "C04": {"flavours": Q3, "suites": [], "step_suites": [("kill", step_c04)],
+            "rule": "strace kill sweep over keyed writes, overwrites (multi-byte UTF-8 metadata) and tombstone removals: SIGKILL on entry to every mutating system call, the index append torn at EVERY byte length; on each surviving directory a fresh process looks the key up (previous or new entry, never a mixture; new entry => its data reads back), every other key unchanged, then writes the key again and reads it back; the tree is one of the model's crash states."},
+    "C13": {"flavours": Q3, "suites": [], "step_suites": [("fault", steps.suite_fault), ("retry", steps.suite_fault_retry)],
+            "rule": "strace fault sweep: every system call (open/read/write/mkdir/rename/unlink/link/stat/getdents/...) that names a path inside the cache during write, write_hash, streamed open/chunk/commit, read, read_hash, metadata, copy, remove, remove_hash, list is made to fail once with EIO / ENOSPC (thorough: + EACCES, EMFILE); the call must answer an error or a truthful success (written data reads back, reads return the stored bytes, metadata/list do not silently lose entries), never panic/hang/die; afterwards content files hash to their paths, unnamed entries are unchanged, no temp file of a failed call remains; and the same call issued again without the fault succeeds."},
+    "C15": {"flavours": Q3, "suites": [], "step_suites": [("confine", steps.suite_confine)],
+            "rule": "strace path audit: for hostile / confusable / random Unicode keys a 25-call program covering every kind of operation is traced; every mutating system call must name paths inside the cache root (extractions: or their destination), read-only calls must issue no mutating system call, path components under the cache are never empty, '.', '..' or contain NUL, components under index-v5 are hex, content files are never opened for writing in place, the working directory is untouched."},
     "C11": {"flavours": Q3, "suites": [("meta", suite_meta), ("commit", suite_commit)],
             "rule": "several writes to one key with fields (data, time incl. 2^128-1, JSON metadata trees, raw bytes, declared size, single/multi-hash integrity) drawn from small pools so that successive records differ in one field or repeat earlier values, via streamed writers and index::insert, read back by metadata/find/list after each; bucket bytes compared byte for byte (explicit times); default time checked against the call's wall-clock window."},
     "C17": {"flavours": Q3, "suites": [("refwrites", suite_refwrites), ("meta", suite_meta), ("hist", suite_hist)],
